@@ -313,6 +313,8 @@ func (r *binaryReader) StepOut() error {
 	}
 
 	if err := r.bits.StepOut(); err != nil {
+		// The bitstream has already left the container; the reader cannot go on.
+		r.err = err
 		return err
 	}
 
